@@ -22,11 +22,26 @@ struct hash2 { size_t operator()(Item const& i) const { return h(i.key); } size_
   static size_t h(int k) { switch (g_hash_mode) { case 1: return 3; case 2: return (size_t)(k % 3); case 3: return (size_t)g_h2[k & 63]; default: return (size_t)(k / 2 + 1); } } };
 struct item_eq { template <class A, class B> bool operator()(A const& a, B const& b) const { cs_point(); return item_less::kof(a) == item_less::kof(b); } };
 typedef cds::sync::spin_lock<cds::backoff::yield> spin_t;
-template <class MP, class PS, unsigned SH, bool ORD> struct ck_t : public cc::cuckoo::traits { typedef cds::opt::hash_tuple<item_hash, hash2> hash; typedef MP mutex_policy; typedef PS probeset_type; static unsigned int const store_hash = SH;
+// Attribution of lost elements (programs whose init section contains the op "audit", single-threaded): after every operation and at
+// the start of every resize() the driver probes all keys; a key that vanished without being erased is logged as
+//   x lost(key, cause)   cause 1: vanished during an operation that resized, after resize() had started (finding 7.4)
+//                        cause 2: already gone when resize() started (lost by the relocation before it)
+//                        cause 4: vanished in an operation that did not resize
+// The oracle ignores these events; they only refine the signature under which a rejected history is reported.
+static std::function<void(int)> g_audit; static int g_op_flags = 0;
+struct ck_stat : public cds::intrusive::cuckoo::empty_stat { void onResizeCall() const { if (g_audit) g_audit(2); g_op_flags |= 1; } };
+template <class MP, class PS, unsigned SH, bool ORD> struct ck_t : public cc::cuckoo::traits { typedef ck_stat stat; typedef cds::opt::hash_tuple<item_hash, hash2> hash; typedef MP mutex_policy; typedef PS probeset_type; static unsigned int const store_hash = SH;
   typedef typename std::conditional<ORD, item_less, cds::opt::none>::type less; typedef typename std::conditional<ORD, cds::opt::none, item_eq>::type equal_to; typedef cds::atomicity::item_counter item_counter; };
 template <class S, class... A> static void lock_set(const Program& P, int hm, A... a) { g_hash_mode = hm;
   for (auto& o : P.init) if (o.name == "seth") { g_h1[o.arg(0) & 63] = (int)o.arg(1); g_h2[o.arg(0) & 63] = (int)o.arg(2); }
-  Smr<cds::gc::HP> smr(1, P.threads.size() + 1); { S s(a...); LockSetAd<S> ad(s); run_set_program(P, ad, attach, detach); } }
+  bool audit = false; for (auto& o : P.init) if (o.name == "audit") audit = true;
+  Smr<cds::gc::HP> smr(1, P.threads.size() + 1); { S s(a...); LockSetAd<S> ad(s);
+    bool was[64] = {false}; int removing = -1;
+    if (audit && P.threads.size() <= 1) {
+      g_audit = [&](int cause) { for (int k = 1; k < 64; ++k) if (was[k] && k != removing && !ad.find(k)) { xev("lost", k, cause); was[k] = false; } };
+      after_op_hook() = [&](const Op& o) { removing = (o.name == "era" || o.name == "eraf") ? (int)o.arg(0) : -1; if (o.name == "clear") for (int k = 0; k < 64; ++k) was[k] = false;
+        g_audit((g_op_flags & 1) ? 1 : 4); for (int k = 1; k < 64; ++k) was[k] = ad.find(k); g_op_flags = 0; removing = -1; }; }
+    run_set_program(P, ad, attach, detach); g_audit = nullptr; after_op_hook() = nullptr; } }
 typedef cc::CuckooSet<Item, ck_t<cc::cuckoo::striping<std::recursive_mutex, 2>, cc::cuckoo::list, 0, false>> CK_ST_L; typedef cc::CuckooSet<Item, ck_t<cc::cuckoo::refinable<std::recursive_mutex, 2>, cc::cuckoo::list, 0, true>> CK_RF_L;
 typedef cc::CuckooSet<Item, ck_t<cc::cuckoo::striping<std::recursive_mutex, 2>, cc::cuckoo::vector<2>, 2, false>> CK_ST_V; typedef cc::CuckooSet<Item, ck_t<cc::cuckoo::refinable<std::recursive_mutex, 2>, cc::cuckoo::vector<2>, 2, true>> CK_RF_V;
 // (initial size, probe-set size, probe-set threshold)
